@@ -205,7 +205,7 @@ Proof.
   destruct (num =? 0).
   - destruct more; cbn; auto.
   - destruct (spool_find (st_spool st) (block_key req)) as [acc|]; [|cbn; auto].
-    destruct (more && negb _); [cbn; auto|]. destruct (blk_start num szx =? blen acc); [|cbn; auto].
+    destruct (block1_invalid more szx (payload req)); [cbn; auto|]. destruct (blk_start num szx =? blen acc); [|cbn; auto].
     destruct more; cbn; auto.
 Qed.
 
@@ -215,7 +215,7 @@ Proof.
   destruct (num =? 0).
   - destruct more; reflexivity.
   - destruct (spool_find (st_spool st) (block_key req)) as [acc|]; [|reflexivity].
-    destruct (more && negb _); [reflexivity|]. destruct (blk_start num szx =? blen acc); [|reflexivity].
+    destruct (block1_invalid more szx (payload req)); [reflexivity|]. destruct (blk_start num szx =? blen acc); [|reflexivity].
     destruct more; reflexivity.
 Qed.
 
@@ -301,8 +301,8 @@ Section ServerConf.
       by (right; apply under_child; [apply under_abspath; exact Hpar|exact Htmp]).
     eapply (triple_bind _ _ It); [apply conf_open_dir_w; exact Hpar|]. intros [e|[]] _; [apply (triple_raise _ _ Ir)|].
     eapply (triple_bind _ _ It); [apply conf_create; [exact Hshown|exact Htmpu]|]. intros [e|[]] _; [apply (triple_raise _ _ Ir)|].
-    destruct (fs_disk_full self && nonempty_list (payload req)); [apply (triple_raise _ _ Ir)|].
-    eapply (triple_bind _ _ It); [apply conf_rename; assumption|]. intros [e|[]] _.
+    eapply (triple_bind _ _ It) with (Q := fun _ => True);
+      [destruct (fs_disk_full self && nonempty_list (payload req)); [apply (triple_ret _ _ Ir); exact I|apply conf_rename; assumption]|]. intros [e|[]] _.
     - eapply (triple_bind _ _ It); [apply conf_unlink; [exact Hshown|exact Htmpu]|]. intros _ _. apply (triple_raise _ _ Ir).
     - eapply (triple_bind _ _ It); [apply conf_stat; exact Hp|]. intros [e|n] _; [apply (triple_raise _ _ Ir)|apply (triple_ret _ _ Ir); exact I]. Qed.
   Lemma conf_render_put req : T (render_put self req) (fun _ => True).
@@ -499,12 +499,12 @@ Lemma lookup_aremove_same fs k : k <> [] -> lookup (aremove fs k) k = None.
 Proof. intros H. destruct k; [contradiction|]. apply alookup_aremove_same. Qed.
 
 Lemma store_file_errsafe self req p st :
-  fs_disk_full self = false ->          (* writing the body into the spool file succeeds; see store_file_failed_write below *)
   parts p <> [] ->
   lookup (st_fs st) (parts (child (parent p) (fs_tmpname self))) = None ->
   errsafe_at st (store_file self req p).
 Proof.
-  intros Hnofull Hne Hfresh. unfold errsafe_at, store_file. rewrite Hnofull. cbn [andb].
+  intros Hne Hfresh. unfold errsafe_at, store_file.
+  set (full := fs_disk_full self && nonempty_list (payload req)). set (body := if full then [] else payload req).
   set (tmp := child (parent p) (fs_tmpname self)) in *.
   assert (parts tmp <> []) as Htne by (unfold tmp, child; cbn [parts]; intros H; apply app_eq_nil in H as [_ H]; discriminate).
   assert (length (parts tmp) = length (parts p)) as Hlen by (unfold tmp, child, parent; cbn [parts]; apply length_removelast_snoc; exact Hne).
@@ -513,18 +513,20 @@ Proof.
   rewrite out_bind, out_create. unfold fs_create.
   destruct (resolve (st_fs st) tmp) as [e|kt] eqn:Ert; cbv beta iota; [rewrite out_raise; apply fs_equiv_refl|].
   pose proof (resolve_key _ _ _ Ert) as Hkt. subst kt. rewrite Hfresh. cbv beta iota.
-  set (fs1 := aset (st_fs st) (parts tmp) (NFile (payload req))).
+  set (fs1 := aset (st_fs st) (parts tmp) (NFile body)).
   assert (forall q, q <> parts tmp -> lookup fs1 q = lookup (st_fs st) q) as H1 by (intros q Hq; apply lookup_aset_other; congruence).
-  assert (lookup fs1 (parts tmp) = Some (NFile (payload req))) as H1t by (apply lookup_aset_same; exact Htne).
+  assert (lookup fs1 (parts tmp) = Some (NFile body)) as H1t by (apply lookup_aset_same; exact Htne).
   assert (resolve fs1 tmp = inr (parts tmp)) as Ert1.
   { rewrite <- Ert. apply resolve_congr. intros q Hq. apply H1. intros ->. lia. }
-  rewrite out_bind, out_rename. cbn [st_fs with_fs]. unfold fs_rename. rewrite Ert1, H1t.
   assert (fs_equiv (aremove fs1 (parts tmp)) (st_fs st)) as Hundo.
   { intros k. destruct (list_eq_dec (list_eq_dec Z.eq_dec) k (parts tmp)) as [->|Hk].
     - rewrite lookup_aremove_same by exact Htne. rewrite Hfresh. reflexivity.
     - rewrite lookup_aremove_other by congruence. apply H1. exact Hk. }
   assert (forall shown e, out (unlink shown tmp ;;; @raise response (XOSError e)) (with_fs st fs1) = (with_fs st (aremove fs1 (parts tmp)), inl (XOSError e))) as Hunl.
   { intros shown e. rewrite out_bind, out_unlink. cbn [st_fs with_fs]. unfold fs_unlink. rewrite Ert1, H1t. cbv beta iota. rewrite out_raise. reflexivity. }
+  rewrite out_bind. destruct full.
+  { (* the write fails: the except clause removes the temporary file *) rewrite out_ret. cbv beta iota. rewrite Hunl. exact Hundo. }
+  rewrite out_rename. cbn [st_fs with_fs]. unfold fs_rename. rewrite Ert1, H1t.
   destruct (resolve fs1 p) as [e|kp] eqn:Erp; cbv beta iota.
   - rewrite Hunl. exact Hundo.
   - pose proof (resolve_key _ _ _ Erp) as Hkp. subst kp.
@@ -554,7 +556,6 @@ Proof. intros Hm Hf. unfold errsafe_at. rewrite out_bind. unfold out at 1. speci
 Section ErrSafe.
   Variable self : fileserver.
   Hypothesis Hroot : root_ok (fs_root self).
-  Hypothesis Hnofull : fs_disk_full self = false.
   (* the temporary name chosen by tempfile does not exist yet (tempfile retries until that is the case) *)
   Definition tmp_fresh (req : request) (fs : fsys) : Prop :=
     forall p, request_to_localpath self req = Ok p ->
@@ -568,7 +569,7 @@ Section ErrSafe.
     unfold errsafe_at. rewrite out_bind. unfold lift_path.
     destruct (request_to_localpath self req) as [p|e] eqn:E; [|rewrite out_raise; apply fs_equiv_refl].
     rewrite out_ret. change (errsafe_at st (put_preconditions self req (load_parts p) ;;; store_file self req (load_parts p))).
-    eapply errsafe_bind_ro; [apply ro_put_preconditions|]. intros _ st1 _ H1. apply store_file_errsafe; [exact Hnofull| |].
+    eapply errsafe_bind_ro; [apply ro_put_preconditions|]. intros _ st1 _ H1. apply store_file_errsafe.
     - destruct (request_to_localpath_confined _ _ _ Hroot E) as [Hp _]. rewrite Hp. cbn [parts].
       intros H. apply app_eq_nil in H as [_ H]. exact (filter_last_nonempty _ G1 G2 H).
     - rewrite H1. apply Hf. exact E. Qed.
@@ -704,34 +705,26 @@ End Blockwise.
 Lemma feed_last req st num szx acc :
   opt_block1 req = Some (num, false, szx) -> num <> 0 ->
   spool_find (st_spool st) (block_key req) = Some acc -> blk_start num szx = blen acc ->
-  exists st', feed_and_take req st = ((st', []), inr (with_payload req (acc ++ payload req))) /\ st_fs st' = st_fs st.
-Proof. intros H1 Hn Hs Ho. unfold feed_and_take. rewrite H1, Hs. replace (num =? 0) with false by lia.
-  cbn [andb]. rewrite Ho, Z.eqb_refl. eexists. split; reflexivity. Qed.
+  block1_invalid false szx (payload req) = false ->          (* the final block does not exceed its block size *)
+  exists st', feed_and_take req st = ((st', []), inr (with_payload req (acc ++ payload req))) /\ st_fs st' = st_fs st
+              /\ st_spool st' = spool_remove (st_spool st) (block_key req).
+Proof. intros H1 Hn Hs Ho Hv. unfold feed_and_take. rewrite H1, Hs, Hv. replace (num =? 0) with false by lia.
+  rewrite Ho, Z.eqb_refl. eexists. split; [reflexivity|split; reflexivity]. Qed.
 Lemma feed_gap req st num more szx acc :
   opt_block1 req = Some (num, more, szx) -> num <> 0 ->
   spool_find (st_spool st) (block_key req) = Some acc -> blk_start num szx <> blen acc ->
   exists e, feed_and_take req st = ((st, []), inl e) /\ (e = XIncomplete \/ e = XBadRequest).
 Proof. intros H1 Hn Hs Ho. unfold feed_and_take. rewrite H1, Hs. replace (num =? 0) with false by lia.
-  destruct (more && negb _); [eexists; split; [reflexivity|right; reflexivity]|].
+  destruct (block1_invalid more szx (payload req)); [eexists; split; [reflexivity|right; reflexivity]|].
   replace (blk_start num szx =? blen acc) with false by lia. eexists; split; [reflexivity|left; reflexivity]. Qed.
+Lemma feed_oversize req st num more szx acc :
+  opt_block1 req = Some (num, more, szx) -> num <> 0 -> spool_find (st_spool st) (block_key req) = Some acc ->
+  block1_invalid more szx (payload req) = true -> feed_and_take req st = ((st, []), inl XBadRequest).
+Proof. intros H1 Hn Hs Hv. unfold feed_and_take. rewrite H1, Hs, Hv. replace (num =? 0) with false by lia. reflexivity. Qed.
 Lemma feed_unknown req st num more szx :
   opt_block1 req = Some (num, more, szx) -> num <> 0 -> spool_find (st_spool st) (block_key req) = None ->
   feed_and_take req st = ((st, []), inl XIncomplete).
 Proof. intros H1 Hn Hs. unfold feed_and_take. rewrite H1, Hs. replace (num =? 0) with false by lia. reflexivity. Qed.
-
-(* ------------------------------------------------------------------ round 5: a failing write leaves the temporary file *)
-Lemma store_file_failed_write self req p st :
-  fs_disk_full self = true -> payload req <> [] -> has_nul (parent p) = false ->
-  resolve (st_fs st) (child (parent p) (fs_tmpname self)) = inr (parts (child (parent p) (fs_tmpname self))) ->
-  lookup (st_fs st) (parts (child (parent p) (fs_tmpname self))) = None ->
-  out (store_file self req p) st =
-    (with_fs st (aset (st_fs st) (parts (child (parent p) (fs_tmpname self))) (NFile [])), inl (XOSError ENOSPC)).
-Proof.
-  intros Hfull Hpl Hnul Hres Hfresh. unfold store_file. rewrite Hfull.
-  assert (nonempty_list (payload req) = true) as -> by (destruct (payload req); [contradiction|reflexivity]). cbn [andb].
-  rewrite out_bind, out_open_dir_w, Hnul. cbv beta iota.
-  rewrite out_bind, out_create. unfold fs_create. rewrite Hres, Hfresh. cbv beta iota. rewrite out_raise. reflexivity.
-Qed.
 
 (* ------------------------------------------------------------------ round 5: requests that would lead outside are answered with an error, without any call *)
 Definition quiet {A} (m : FM A) (Q : A -> Prop) : Prop :=
@@ -773,7 +766,8 @@ Section Escaping.
   Proof. intros Hm st. unfold feed_and_take. destruct (opt_block1 req) as [[[num more] szx]|] eqn:E; [|cbn; auto].
     rewrite (Hm _ _ _ eq_refl). destruct (num =? 0); [cbn; auto|].
     destruct (spool_find (st_spool st) (block_key req)) as [acc|]; [|cbn; repeat split; discriminate].
-    cbn [andb]. destruct (blk_start num szx =? blen acc); cbn; repeat split; try discriminate. Qed.
+    destruct (block1_invalid false szx (payload req)); [cbn; repeat split; discriminate|].
+    destruct (blk_start num szx =? blen acc); cbn; repeat split; try discriminate. Qed.
   Lemma exn_code_error e : e <> XContinue -> 128 <= exn_code e.
   Proof. destruct e; cbn; try lia. intros H. contradiction. Qed.
   (* a request with a component that would lead outside the root ("..", ".", anything with a slash) is answered with an
